@@ -41,7 +41,7 @@ with `acct` ∈ `u<n>` | `locker` | `collector`, every list sorted by key, zero 
 Outputs: `DIFF` (model ≠ code: outcome or any field of the projection), `MON` (a property monitor is false on the REAL state /
 REAL call), `BAD` (protocol). After every line the model state is replaced by the real one, so one divergence is reported once.
 Monitor names: deposited_eq_sum, locker_custody, withdraw_exact, collector_custody, netfees_nonneg, netfees_delta, ext_input,
-pow_ge_one, pow_zero_exp, reward_le_netfees.
+pow_ge_one, pow_zero_exp, reward_le_netfees, tracker_fraction.
 -/
 -- DRIVER: prefix=lk ns=Comdex.Drv.Locker
 namespace Comdex.Drv.Locker
@@ -239,7 +239,9 @@ def stateMonitors (p r : State) : List String :=
   (if !monDepositedEqSum r && monDepositedEqSum p then ["deposited_eq_sum"] else []) ++
   (if !monLockerCustody r && monLockerCustody p then ["locker_custody"] else []) ++
   (if !monCollectorCustody r && monCollectorCustody p then ["collector_custody"] else []) ++
-  (if !monNetFeesNonneg r && monNetFeesNonneg p then ["netfees_nonneg"] else [])
+  (if !monNetFeesNonneg r && monNetFeesNonneg p then ["netfees_nonneg"] else []) ++
+  -- the carried fraction of every reward tracker stays in [0, 1) (hypothesis of `C13.nothing_paid_for_zero_accrual`)
+  (if r.trackers.all (fun q => decide (0 ≤ q.2) && decide (q.2 < Dec.one)) then [] else ["tracker_fraction"])
 
 /-! ### one op line -/
 
